@@ -19,6 +19,14 @@ package sema
 //     in the gate until this goroutine has seen 1500 separate 1 ms ticks (normally it takes microseconds). If it does not arrive, the
 //     backend is unfrozen and all slots are released: arriving only then = violation,
 //     still not arriving = inconclusive (case discarded and counted).
+//   - cancellation: every caller has its own context, cancelled at drawn points: before the
+//     call, while it is queued on the saturated semaphore (or held back by the freeze), while
+//     it is parked inside the backend, after it returned. A queued caller is only cancelled in
+//     a quiescent state, where it provably has not yet passed the token gate. Nothing about
+//     the oracle is relaxed: the gate keeps counting (a cancelled waiter that frees a slot it
+//     never owned shows up as limit+1 operations inside), a cancelled caller that still enters
+//     needs a real slot, and at the end of the schedule everything is released and EVERY caller
+//     must return (a caller stuck in ReleaseToken = violation; tick-based, one-sided).
 
 import (
 	"context"
@@ -128,7 +136,6 @@ const (
 	lockTicksC37  = 1500             // a lock operation normally arrives within microseconds; see waitTicks
 	lockWait2C37  = 10 * time.Second // second stage after everything was released
 	stallTicksC37 = 4000             // an expected non-lock arrival that never comes (ticks as above)
-	stallWaitC37  = 20 * time.Second // callers that do not return after everything was released
 	settleWaitC37 = 300 * time.Microsecond
 )
 
@@ -139,6 +146,12 @@ type callerC37 struct {
 	started chan struct{}
 	done    chan struct{}
 	arrived *parkedC37
+	lock    bool
+	cancel  context.CancelFunc
+	// cancelledPending: the context was cancelled before the caller reached the backend, so it
+	// is not expected to arrive any more (and is not counted in outstandingNL)
+	cancelledPending bool
+	cancelled        bool
 }
 
 type runC37 struct {
@@ -158,6 +171,7 @@ type runC37 struct {
 	lockWhileFull  int
 	lockWhileFrz   int
 	blockedWhileFz int // non-lock callers launched or unblocked by a release while frozen
+	cancels        map[string]int
 }
 
 var opNamesC37 = []string{"Save", "Load", "Stat", "Remove"}
@@ -167,11 +181,16 @@ func (r *runC37) logf(format string, args ...any) {
 	r.trace = append(r.trace, fmt.Sprintf(format, args...))
 }
 
-func (r *runC37) launch(op int, h backend.Handle) *callerC37 {
+func (r *runC37) launch(op int, h backend.Handle, preCancelled bool) *callerC37 {
 	r.callID++
-	c := &callerC37{id: r.callID, op: op, h: h, started: make(chan struct{}), done: make(chan struct{})}
+	c := &callerC37{id: r.callID, op: op, h: h, started: make(chan struct{}), done: make(chan struct{}), lock: h.Type == backend.LockFile}
 	r.callers[c.id] = c
-	ctx := context.WithValue(context.Background(), ctxKeyC37{}, c.id)
+	ctx, cancel := context.WithCancel(context.WithValue(context.Background(), ctxKeyC37{}, c.id))
+	c.cancel = cancel
+	if preCancelled {
+		cancel()
+		c.cancelled, c.cancelledPending = true, true
+	}
 	go func() {
 		defer close(c.done)
 		close(c.started)
@@ -187,8 +206,28 @@ func (r *runC37) launch(op int, h backend.Handle) *callerC37 {
 		}
 	}()
 	<-c.started
-	r.logf("launch #%d %s %v", c.id, opNamesC37[op], h)
+	r.logf("launch #%d %s %v precancelled=%v", c.id, opNamesC37[op], h, preCancelled)
 	return c
+}
+
+func (c *callerC37) returned() bool {
+	select {
+	case <-c.done:
+		return true
+	default:
+		return false
+	}
+}
+
+// pick returns the callers satisfying f, ordered by id.
+func (r *runC37) pick(f func(*callerC37) bool) []*callerC37 {
+	var out []*callerC37
+	for id := 1; id <= r.callID; id++ {
+		if c := r.callers[id]; c != nil && f(c) {
+			out = append(out, c)
+		}
+	}
+	return out
 }
 
 func (r *runC37) noteArrival(p *parkedC37) {
@@ -198,6 +237,12 @@ func (r *runC37) noteArrival(p *parkedC37) {
 	}
 	if c := r.callers[p.id]; c != nil {
 		c.arrived = p
+		if c.cancelledPending && !p.lock {
+			// entered although cancelled before: allowed only with a real slot - the gate's counter decides
+			c.cancelledPending = false
+			r.outstandingNL++
+			r.cancels["cancelled-caller-entered-anyway"]++
+		}
 	}
 	r.logf("arrived #%d lock=%v", p.id, p.lock)
 }
@@ -246,6 +291,13 @@ func (r *runC37) waitTicks(cond func() bool, n int) bool {
 	if cond() {
 		return true
 	}
+	t0 := time.Now()
+	defer func() {
+		if d := time.Since(t0); d > slowestWaitC37 {
+			slowestWaitC37 = d
+			slowestWaitInfoC37 = fmt.Sprintf("%v for %d ticks, last trace entries: %s", d, n, strings.Join(r.trace[max(0, len(r.trace)-6):], "; "))
+		}
+	}()
 	tk := time.NewTicker(time.Millisecond)
 	defer tk.Stop()
 	hard := time.NewTimer(2 * time.Minute)
@@ -259,6 +311,9 @@ func (r *runC37) waitTicks(cond func() bool, n int) bool {
 			}
 		case <-tk.C:
 			ticks++
+			if cond() {
+				return true
+			}
 		case <-hard.C:
 			return cond()
 		}
@@ -279,6 +334,12 @@ func (r *runC37) releaseIdx(i int) {
 }
 
 func (r *runC37) expectedParked() int { return min(r.outstandingNL, r.conns) }
+
+// diagnostics only: the longest single wait of this process (goes into the evidence notes)
+var (
+	slowestWaitC37     time.Duration
+	slowestWaitInfoC37 string
+)
 
 type failC37 struct{ msg string }
 
@@ -309,11 +370,13 @@ func (r *runC37) invariant() *failC37 {
 
 // lockOp launches a lock-file operation and requires that it reaches the gate no matter
 // what. Returns (violation, inconclusive).
-func (r *runC37) lockOp(op int, name string) (*failC37, bool) {
+func (r *runC37) lockOp(op int, name string, preCancelled bool) (*failC37, bool) {
 	full := r.parkedNonLock >= r.conns
 	frozen := r.frozen
-	c := r.launch(op, backend.Handle{Type: backend.LockFile, Name: name})
-	if r.waitTicks(func() bool { return c.arrived != nil }, lockTicksC37) {
+	c := r.launch(op, backend.Handle{Type: backend.LockFile, Name: name}, preCancelled)
+	// a lock operation with a cancelled context returns at once instead of reaching the backend
+	reached := func() bool { return c.arrived != nil || (preCancelled && c.returned()) }
+	if r.waitTicks(reached, lockTicksC37) {
 		if full {
 			r.lockWhileFull++
 		}
@@ -329,13 +392,13 @@ func (r *runC37) lockOp(op int, name string) (*failC37, bool) {
 		r.frozen = false
 	}
 	deadline := time.Now().Add(lockWait2C37)
-	for c.arrived == nil && time.Now().Before(deadline) {
+	for !reached() && time.Now().Before(deadline) {
 		for len(r.parked) > 0 {
 			r.releaseIdx(0)
 		}
-		r.waitFor(func() bool { return c.arrived != nil || len(r.parked) > 0 }, 50*time.Millisecond)
+		r.waitFor(func() bool { return reached() || len(r.parked) > 0 }, 50*time.Millisecond)
 	}
-	if c.arrived != nil {
+	if reached() {
 		return &failC37{fmt.Sprintf("lock-file operation #%d (%s) did not reach the backend during %d scheduler ticks (>= %d ms) while %s, but did after the slots were released and the backend unfrozen: lock operations were blocked", c.id, opNamesC37[op], lockTicksC37, lockTicksC37, state)}, false
 	}
 	return nil, true
@@ -347,36 +410,40 @@ func (r *runC37) finish() *failC37 {
 		r.be.(backend.FreezeBackend).Unfreeze()
 		r.frozen = false
 	}
-	deadline := time.Now().Add(stallWaitC37)
-	for {
+	allDone := func() bool {
+		for _, c := range r.callers {
+			if !c.returned() {
+				return false
+			}
+		}
+		return true
+	}
+	for ticks := 0; ; ticks += 50 {
 		r.drain()
 		for len(r.parked) > 0 {
 			r.releaseIdx(0)
 		}
-		all := true
-		for _, c := range r.callers {
-			select {
-			case <-c.done:
-			default:
-				all = false
-			}
-		}
-		if all {
+		if allDone() {
 			return nil
 		}
-		if time.Now().After(deadline) {
-			return &failC37{"stall: callers did not return after everything was released"}
+		if ticks >= stallTicksC37 {
+			var stuck []string
+			for _, c := range r.pick(func(c *callerC37) bool { return !c.returned() }) {
+				stuck = append(stuck, fmt.Sprintf("#%d %s %v (reached backend=%v cancelled=%v)", c.id, opNamesC37[c.op], c.h, c.arrived != nil, c.cancelled))
+			}
+			return &failC37{fmt.Sprintf("stall: after everything was released and unfrozen, %d caller(s) never returned during %d scheduler ticks - blocked forever (e.g. releasing a token nobody holds): %s", len(stuck), stallTicksC37, strings.Join(stuck, ", "))}
 		}
-		r.waitFor(func() bool { return len(r.parked) > 0 }, 2*time.Millisecond)
+		r.waitTicks(func() bool { return len(r.parked) > 0 || allDone() }, 50)
 	}
 }
 
 func TestVerifC37Sema(t *testing.T) {
 	st := verifkit.Begin(t, "C37")
+	defer func() { st.Note(fmt.Sprintf("slowest_wait_shard%d", verifkit.Shard()), slowestWaitInfoC37) }()
 	rapid.Check(t, func(t *rapid.T) {
 		conns := rapid.IntRange(1, 5).Draw(t, "connections")
 		gate := &gateC37{conns: uint(conns), arrivals: make(chan *parkedC37, 1024)}
-		r := &runC37{gate: gate, be: NewBackend(gate), conns: conns, callers: map[int]*callerC37{}}
+		r := &runC37{gate: gate, be: NewBackend(gate), conns: conns, callers: map[int]*callerC37{}, cancels: map[string]int{}}
 		fz := r.be.(backend.FreezeBackend)
 
 		var fail *failC37
@@ -385,7 +452,7 @@ func TestVerifC37Sema(t *testing.T) {
 		maxOutstanding := 0
 	steps:
 		for i := 0; i < nsteps && fail == nil; i++ {
-			act := rapid.SampledFrom([]string{"nonlock", "nonlock", "nonlock", "burst", "lock", "lock", "release", "release", "freeze", "unfreeze", "settle"}).Draw(t, "action")
+			act := rapid.SampledFrom([]string{"nonlock", "nonlock", "nonlock", "burst", "lock", "lock", "release", "release", "freeze", "unfreeze", "settle", "cancel-queued", "cancel-queued", "cancel-parked", "cancel-returned"}).Draw(t, "action")
 			switch act {
 			case "nonlock", "burst":
 				n := 1
@@ -395,7 +462,13 @@ func TestVerifC37Sema(t *testing.T) {
 				for j := 0; j < n && r.callID < 60; j++ {
 					op := rapid.IntRange(0, 3).Draw(t, "op")
 					ft := rapid.SampledFrom(nonLockTypesC37).Draw(t, "type")
-					r.launch(op, backend.Handle{Type: ft, Name: fmt.Sprintf("f%d", r.callID)})
+					pre := rapid.IntRange(0, 7).Draw(t, "precancelled") == 0
+					r.launch(op, backend.Handle{Type: ft, Name: fmt.Sprintf("f%d", r.callID)}, pre)
+					if pre {
+						// takes (or queues for) a slot, then must return without entering the backend
+						r.cancels["cancel=before-call(nonlock)"]++
+						continue
+					}
 					r.outstandingNL++
 					if r.frozen {
 						r.blockedWhileFz++
@@ -405,8 +478,12 @@ func TestVerifC37Sema(t *testing.T) {
 				fail = r.quiesce()
 			case "lock":
 				op := rapid.IntRange(0, 3).Draw(t, "op")
+				pre := rapid.IntRange(0, 7).Draw(t, "precancelled") == 0
+				if pre {
+					r.cancels["cancel=before-call(lock)"]++
+				}
 				var inc bool
-				fail, inc = r.lockOp(op, fmt.Sprintf("l%d", r.callID))
+				fail, inc = r.lockOp(op, fmt.Sprintf("l%d", r.callID), pre)
 				if inc {
 					inconclusive = true
 					break steps
@@ -452,6 +529,60 @@ func TestVerifC37Sema(t *testing.T) {
 			case "settle":
 				time.Sleep(settleWaitC37)
 				r.drain()
+			case "cancel-queued":
+				// Only in a quiescent state: then every live caller that has not arrived is queued on the
+				// semaphore (all slots are held by parked operations) or held back by the freeze, i.e. it
+				// has provably not yet passed the token gate and its context check.
+				if fail = r.quiesce(); fail != nil {
+					break
+				}
+				cands := r.pick(func(c *callerC37) bool { return !c.lock && c.arrived == nil && !c.cancelled && !c.returned() })
+				if len(cands) == 0 {
+					continue
+				}
+				c := cands[rapid.IntRange(0, len(cands)-1).Draw(t, "which")]
+				c.cancelled, c.cancelledPending = true, true
+				r.outstandingNL--
+				c.cancel()
+				if r.frozen {
+					r.cancels["cancel=while-held-back-by-freeze"]++
+				} else {
+					r.cancels["cancel=while-queued"]++
+				}
+				r.logf("cancel queued #%d", c.id)
+				// a waiter that wrongly frees a slot lets another queued caller in: give it a moment
+				time.Sleep(settleWaitC37)
+				r.drain()
+				fail = r.quiesce()
+			case "cancel-parked":
+				cands := r.pick(func(c *callerC37) bool { return c.arrived != nil && !c.cancelled && !c.returned() })
+				if len(cands) == 0 {
+					continue
+				}
+				c := cands[rapid.IntRange(0, len(cands)-1).Draw(t, "which")]
+				stillParked := false
+				for _, p := range r.parked {
+					if p == c.arrived {
+						stillParked = true
+					}
+				}
+				if !stillParked {
+					continue
+				}
+				c.cancelled = true
+				c.cancel()
+				r.cancels["cancel=while-parked"]++
+				r.logf("cancel parked #%d", c.id)
+			case "cancel-returned":
+				cands := r.pick(func(c *callerC37) bool { return !c.cancelled && c.returned() })
+				if len(cands) == 0 {
+					continue
+				}
+				c := cands[rapid.IntRange(0, len(cands)-1).Draw(t, "which")]
+				c.cancelled = true
+				c.cancel()
+				r.cancels["cancel=after-return"]++
+				r.logf("cancel returned #%d", c.id)
 			}
 			if fail == nil {
 				fail = r.invariant()
@@ -488,6 +619,9 @@ func TestVerifC37Sema(t *testing.T) {
 		}
 		if inconclusive {
 			classes = append(classes, "inconclusive-lock-op-never-arrived")
+		}
+		for k := range r.cancels {
+			classes = append(classes, k)
 		}
 		key := ""
 		if maxOutstanding > conns && r.freezeWindows >= 1 {
